@@ -1,6 +1,7 @@
 package props
 
 import (
+	"math"
 	"context"
 	"encoding/json"
 	"fmt"
@@ -41,10 +42,19 @@ type DeadlineCase struct {
 	// Prepare under a context that stays alive), "expired-first" (a Prepare and
 	// a run under a context that has already ended). Then SetContext + Prepare.
 	PrepHistory string `json:"prep_history,omitempty"`
+	// FaultFirst: before the judged run the evaluator has a run (under the
+	// same, still living context) that ends in a recovered fault: the script
+	// starts with "if ( Boom ) { <fault> }" and that run's object sets Boom.
+	FaultFirst string `json:"fault_first,omitempty"`
 	Msg         string `json:"message,omitempty"`
 }
 
 type c09Key struct{}
+
+// c09Object: the object every run gets (the ends of the integers included).
+func c09Object() map[string]interface{} {
+	return map[string]interface{}{"N": 3, "Min": int64(math.MinInt64), "Max": int64(math.MaxInt64)}
+}
 
 // margin is how long after the deadline a return is still "prompt". Normal
 // latency is microseconds; the bound is the subject of the property.
@@ -73,7 +83,7 @@ func runDeadline(c *DeadlineCase) error {
 				return nil, fmt.Errorf("first Prepare failed: %v %v", err, pan)
 			}
 			if c.PrepHistory == "expired-first" {
-				if _, xerr := r.E.Execute(map[string]interface{}{"N": 3}); xerr == nil {
+				if _, xerr := r.E.Execute(c09Object()); xerr == nil {
 					return nil, fmt.Errorf("a run under an already-cancelled context (first Prepare) returned no error")
 				}
 				atomic.StoreInt32(&traced, 0)
@@ -128,11 +138,34 @@ func runDeadline(c *DeadlineCase) error {
 	if err != nil {
 		return fmt.Errorf("Prepare rejected the script: %v", err)
 	}
+	if c.FaultFirst != "" && c.Ctx != "cancelled" && c.Ctx != "past" {
+		boom := c09Object()
+		boom["Boom"] = true
+		fdone := make(chan error, 1)
+		go func() {
+			defer func() {
+				if p := recover(); p != nil {
+					fdone <- fmt.Errorf("panic: %v", p)
+				}
+			}()
+			_, ferr := r.E.Execute(boom)
+			fdone <- ferr
+		}()
+		select {
+		case ferr := <-fdone:
+			if ferr == nil {
+				return fmt.Errorf("harness: the run that was meant to fail (%s) returned no error", c.FaultFirst)
+			}
+		case <-time.After(limit + 10*time.Second):
+			return fmt.Errorf("the run that fails at once (%s) had not returned after %v", c.FaultFirst, limit+10*time.Second)
+		}
+		atomic.StoreInt32(&traced, 0)
+	}
 	if c.Ctx == "cancel-after-runs" {
 		// the evaluator is used successfully first; then the context ends; the
 		// next run must not execute anything
 		for i := 0; i < c.Millis; i++ {
-			if _, err := r.E.Execute(map[string]interface{}{"N": 3}); err != nil && c.Endless == false {
+			if _, err := r.E.Execute(c09Object()); err != nil && c.Endless == false {
 				return nil // the control script fails by itself: nothing to learn
 			}
 		}
@@ -153,9 +186,9 @@ func runDeadline(c *DeadlineCase) error {
 					done2 <- res2
 				}()
 				if useRun {
-					_, res2.err = r.E.Run(map[string]interface{}{"N": 3})
+					_, res2.err = r.E.Run(c09Object())
 				} else {
-					_, res2.err = r.E.Execute(map[string]interface{}{"N": 3})
+					_, res2.err = r.E.Execute(c09Object())
 				}
 			}()
 			var res2 res2t
@@ -193,9 +226,9 @@ func runDeadline(c *DeadlineCase) error {
 			done <- res
 		}()
 		if c.UseRun {
-			res.ok, res.err = r.E.Run(map[string]interface{}{"N": 3})
+			res.ok, res.err = r.E.Run(c09Object())
 		} else {
-			out, xerr := r.E.Execute(map[string]interface{}{"N": 3})
+			out, xerr := r.E.Execute(c09Object())
 			res.err = xerr
 			if xerr == nil {
 				res.val, _ = eng.FromObject(out)
@@ -241,7 +274,7 @@ func runDeadline(c *DeadlineCase) error {
 	if err != nil {
 		return nil
 	}
-	want := ref.Execute(map[string]interface{}{"N": 3})
+	want := ref.Execute(c09Object())
 	if (res.err == nil) != (want.Err == nil) {
 		return fmt.Errorf("with a 30 s deadline err=%v, without context err=%v", res.err, want.Err)
 	}
@@ -262,7 +295,7 @@ func init() {
 }
 
 // endlessScript draws a script that never terminates by construction.
-func endlessScript(rt *rapid.T) (string, string) {
+func endlessScript(rt *rapid.T, fault string) (string, string) {
 	loops := []string{"while (true) { BODY }", "for (1) { BODY }", "while (1 == 1) { BODY }", "while (2 > 1) { BODY }", "for (\"x\") { BODY }", "while (N) { BODY }", "while (!false) { BODY }"}
 	bodies := []string{"", "x = 1;", "x = x + 1;", "foreach i in 1..20 { y = i; }", "if (x) { x = 0; } else { x = 1; }", "s = \"a\" + \"b\";", "y = len([1,2,3]) * 2;", "switch (x) { case 1 { x = 2; } default { x = 1; } }", "z = x ? 1 : 2;", "trace(1);"}
 	loop := func() string {
@@ -275,6 +308,9 @@ func endlessScript(rt *rapid.T) (string, string) {
 	}
 	shape := rapid.SampledFrom([]string{"top", "top", "function", "nested-functions", "function-in-loop", "recursion-with-loop", "foreach-endless", "after-work", "branching-recursion", "branching-recursion", "mutual-branching", "straight-line", "cheap-ops"}).Draw(rt, "shape")
 	pre := "trace(0); x = 0;\n"
+	if fault != "" {
+		pre = "if ( Boom ) { " + fault + " }\n" + pre
+	}
 	// statements whose value nobody uses, before the spinning part and inside it
 	junk := []string{"", "", "len(\"abc\");", "1;", "x * 2;", "\"s\";", "[1, 2];", "N;", "junkf(1);", "x == 0;", "true ? 1 : 2;"}
 	j := rapid.SampledFrom(junk).Draw(rt, "junk")
@@ -332,7 +368,8 @@ func endlessScript(rt *rapid.T) (string, string) {
 	case "cheap-ops":
 		// single operations that are instantaneous however large their operands look
 		op := rapid.SampledFrom([]string{"x = 1 ** 4000000000000000000;", "x = 0 ** 9223372036854775807;", "x = (0 - 1) ** 9223372036854775806;", "x = 2 ** 62;", "x = 1.0 ** 1000000000000.0;",
-			"x = 9223372036854775807 % 3;", "x = 9223372036854775807 / 2;", "x = (0 - 9223372036854775807) * 3;", "x = \"a\" in \"abcabc\";", "x = len(\"狐犬\");", "x = [1, 2, 3][2];"}).Draw(rt, "cheapop")
+			"x = 9223372036854775807 % 3;", "x = 9223372036854775807 / 2;", "x = (0 - 9223372036854775807) * 3;", "x = \"a\" in \"abcabc\";", "x = len(\"狐犬\");", "x = [1, 2, 3][2];",
+			"x = 2 ** Min;", "x = 1 ** Min;", "x = (0 - 1) ** Min;", "x = 3 ** Max;", "x = Min % 7;", "x = Min / 3;", "x = Max * Max;", "x = Min - 1;", "x = 2.0 ** Min;", "x = Min ** 2;"}).Draw(rt, "cheapop")
 		return pre + "while (true) { " + op + " }", shape
 	case "foreach-endless":
 		return pre + "while (true) { foreach i, v in 1.." + fmt.Sprint(rapid.IntRange(1, 10000).Draw(rt, "rangelen")) + " { x = v; } }", shape
@@ -363,7 +400,9 @@ func TestC09(t *testing.T) {
 		} else {
 			c.Endless = true
 			c.PrepHistory = rapid.SampledFrom([]string{"", "", "", "validate-first", "other-context-first", "expired-first"}).Draw(rt, "prephistory")
-			c.Script, shape = endlessScript(rt)
+			faults := map[string]string{"": "", "panic": "panic(\"boom\");", "mod0": "x = 1 % 0;", "arity": "len(1, 2, 3) % 0;", "index": "x = [1][\"a\"];", "in-function": "function boomf(q) { foreach z in [1] { return q / 0; } } boomf(1);"}
+			c.FaultFirst = rapid.SampledFrom([]string{"", "", "", "panic", "mod0", "arity", "index", "in-function"}).Draw(rt, "faultfirst")
+			c.Script, shape = endlessScript(rt, faults[c.FaultFirst])
 			c.Ctx = rapid.SampledFrom([]string{"cancelled", "past", "deadline", "deadline", "deadline", "cancel-later", "cancel-later"}).Draw(rt, "ctx")
 			c.FarDeadline = rapid.Bool().Draw(rt, "fardeadline")
 			c.Derived = gen.Uniform(rt, "derived", 4) == 0
@@ -381,8 +420,9 @@ func TestC09(t *testing.T) {
 		col.Class("shape:" + shape)
 		col.Class("context:" + c.Ctx)
 		col.Class("prepare-history:" + c.PrepHistory)
+		col.Class("fault-first:" + c.FaultFirst)
 		cc := c
-		col.Case(fmt.Sprint(c.Script, c.Ctx, c.Millis, c.UseRun, c.NoOpt, c.PrepHistory), c.Endless && (c.Ctx == "deadline" || c.Ctx == "cancel-later"), func() interface{} {
+		col.Case(fmt.Sprint(c.Script, c.Ctx, c.Millis, c.UseRun, c.NoOpt, c.PrepHistory, c.FaultFirst), c.Endless && (c.Ctx == "deadline" || c.Ctx == "cancel-later"), func() interface{} {
 			return map[string]interface{}{"script": cc.Script, "context": cc.Ctx, "millis": cc.Millis, "run": cc.UseRun, "noopt": cc.NoOpt, "prepare_history": cc.PrepHistory}
 		})
 	})
